@@ -40,7 +40,7 @@ def floors(tier):
     return {"distinct_nontrivial": 200, "re:ForAll(@.*)?\\.enter": 1000, "cls:U>=2": 1000, "cls:cond:compound": 500,
             "cls:cond:or": 200, "cls:cond:and": 200, "cls:cond:not": 100, "cls:mentions:both": 300,
             "cls:mentions:universal_only": 30, "cls:mentions:free_only": 30, "cls:extra:first": 100,
-            "cls:extra:second": 100, "cls:u_expr": 100, "cls:u_restricted_entity": 300, "cls:free_variable_not_selected": 300, "cls:u_scalar_attribute_with_zero": 200, "cls:u_correlated_subquery": 300, "cls:caching_off": 200, "cls:nfree=2": 200, "cls:nfree=3": 50}
+            "cls:extra:second": 100, "cls:u_expr": 100, "cls:u_restricted_entity": 300, "cls:free_variable_not_selected": 300, "cls:u_scalar_attribute_with_zero": 200, "cls:u_correlated_subquery": 300, "cls:u_flatten_of_plain_numbers": 200, "cls:caching_off": 200, "cls:nfree=2": 200, "cls:nfree=3": 50}
 
 
 def gen_corr_case(rng):
@@ -59,9 +59,27 @@ def gen_corr_case(rng):
                      "xk": rng.choice([0, 1, 2]), "on_entity": rng.random() < 0.5}}
 
 
+def gen_flatprim_case(rng):
+    """for_all(flatten(r.items), OP(e.n, element)): the universal values are plain numbers (negative ones too) of the parent r,
+    which an earlier conjunct has bound"""
+    from . import c16
+    w = c16.gen_world(rng)
+    for p in w["parents"]:
+        p["items"] = rng.sample(range(5), rng.randint(1, 4))      # non-empty: the universal domain of the statement
+    return {"world": {"P": [], "Q": []}, "kinds": ["P"], "cond": None, "extra": None, "extra_first": True, "u_expr": False,
+            "caching": rng.random() < 0.7,
+            # bind "parent": the earlier conjunct binds the parent (several parents); bind "elem": one parent only, the earlier
+            # conjunct binds the free variable the universal values are compared with
+            "flatprim": {"parents": w["parents"], "op": rng.choice(["!=", "<", ">=", "=="]), "k0": rng.randint(0, 3),
+                         "bind": rng.choice(["parent", "elem"])}}
+
+
 def gen_case(rng):
-    if rng.random() < 0.1:
+    r0 = rng.random()
+    if r0 < 0.1:
         return gen_corr_case(rng)
+    if r0 < 0.17:
+        return gen_flatprim_case(rng)
     nfree = rng.choice([1, 1, 2, 2, 3])
     kinds = [rng.choice("PQ") for _ in range(1 + nfree)]
     world = D.random_world(rng, np_=(1, 4), nq=(1, 4))
@@ -197,6 +215,9 @@ def run(case, world, caching, times=1, perm=None):
 
 
 def run_for_c05(case, caching, times):
+    if case.get("flatprim"):
+        gots, exp, _, _ = _flatprim(case, caching, times)
+        return gots, exp, True
     world = D.build_world(case["world"])
     return run(case, world, caching, times), expected(case, world), not case.get("sel_free")
 
@@ -221,7 +242,56 @@ def check_corr_case(case, ctx):
     ctx.sample({"correlated": case["corr"], "expected": exp[:5], "observed": got[:5]})
 
 
+def _flatprim(case, caching, times=1):
+    """-> (rows per evaluation, expected rows)"""
+    from entity_query_language import symbolic_mode, an, set_of, and_, for_all, let
+    from entity_query_language.entity import flatten
+    from entity_query_language.cache_data import enable_caching, disable_caching
+    from . import c16
+    fp = case["flatprim"]
+    by_elem = fp.get("bind") == "elem"
+    es, ps = c16.build_world({"parents": fp["parents"][:1] if by_elem else fp["parents"]}, True)
+    ns = [c16.E(v) for v in c16.PRIMS]
+    op = C.OPS[fp["op"]]
+    first = (lambda p_, e_: e_.n >= fp["k0"] - 3) if by_elem else (lambda p_, e_: p_.k >= fp["k0"])
+    exp = sorted((f"Par{i}", f"N{j}") for i, p_ in enumerate(ps) for j, e_ in enumerate(ns)
+                 if first(p_, e_) and all(op(e_.n, v) for v in p_.items))
+    lab = {id(p_): f"Par{i}" for i, p_ in enumerate(ps)}
+    lab.update({id(e_): f"N{j}" for j, e_ in enumerate(ns)})
+    (enable_caching if caching else disable_caching)()
+    try:
+        with symbolic_mode():
+            r = let(c16.Par, ps)
+            e = let(c16.E, ns)
+            o = flatten(r.items)
+            q = an(set_of([r, e], and_(e.n >= fp["k0"] - 3 if by_elem else r.k >= fp["k0"], for_all(o, op(e.n, o)))))
+        return [sorted((lab.get(id(row[r]), "?"), lab.get(id(row[e]), "?")) for row in q.evaluate()) for _ in range(times)], exp, ps, ns
+    finally:
+        enable_caching()
+
+
+def check_flatprim_case(case, ctx):
+    fp = case["flatprim"]
+    ctx.cls("cls:u_flatten_of_plain_numbers")
+    ctx.cls("cls:caching_on" if case["caching"] else "cls:caching_off")
+    try:
+        gots, exp, ps, ns = _flatprim(case, case["caching"])
+    except Exception as ex:
+        ctx.fail("EXC", f"{type(ex).__name__}: {ex}")
+        return
+    got = gots[0]
+    if max(len(p_.items) for p_ in ps) >= 2 and 0 < len(exp) < len(ps) * len(ns):
+        ctx.nontrivial()
+    if got != exp:
+        ctx.fail("SET:" + ("missing" if set(exp) - set(got) else "") + ("+extra" if set(got) - set(exp) else ""),
+                 {"flatten_universal": fp, "missing": sorted(set(exp) - set(got))[:8], "extra": sorted(set(got) - set(exp))[:8],
+                  "n_expected": len(exp), "n_observed": len(got)})
+    ctx.sample({"flatten_universal": fp, "expected": exp[:5], "observed": got[:5]})
+
+
 def check_case(case, ctx):
+    if case.get("flatprim"):
+        return check_flatprim_case(case, ctx)
     if case.get("corr"):
         return check_corr_case(case, ctx)
     world = D.build_world(case["world"])
@@ -279,6 +349,8 @@ def check_case(case, ctx):
 
 def classify(f, ctx):
     case = f["case"]
+    if case.get("flatprim"):
+        return None
     world = D.build_world(case["world"])
     exp = expected(case, world)
     r = KF.attribute(f, lambda caching: run(case, world, caching)[0], exp, mentioned_not_selected=False,
